@@ -276,7 +276,7 @@ def _run_roundtrip(job):
         s = e = sol = None
         cells = [(i, j) for i in range(r) for j in range(c)]
         if kind == "TargetedLatticeMaze":
-            s = cells[ctx.choose(len(cells))]
+            s = tuple(job["s"]) if job.get("s") is not None else cells[ctx.choose(len(cells))]
             rest = [x for x in cells if x != s]
             e = rest[ctx.choose(len(rest))]
             ctx.inputs.update(si=z3.IntVal(s[0]), sj=z3.IntVal(s[1]), ei=z3.IntVal(e[0]), ej=z3.IntVal(e[1]))
@@ -369,7 +369,10 @@ def jobs(tier, seed):
         for r, c in [(1, 2), (2, 2), (2, 3)] + ([] if q else [(3, 2), (1, 4)]) + ([(3, 3)] if via == "pixels" or not q else []):
             big = r * c >= 9
             out.append(dict(h="roundtrip", kind="LatticeMaze", r=r, c=c, via=via, max_seconds=3300))
-            if not (big and q):
+            if big and not q:
+                for s0 in [(i, j) for i in range(r) for j in range(c)]:  # one instance per start cell (a single instance did not finish in 55 minutes)
+                    out.append(dict(h="roundtrip", kind="TargetedLatticeMaze", r=r, c=c, via=via, s=list(s0), max_seconds=3300))
+            elif not big:
                 out.append(dict(h="roundtrip", kind="TargetedLatticeMaze", r=r, c=c, via=via, max_seconds=3300))
             starts = [(i, j) for i in range(r) for j in range(c)]
             if big:
